@@ -1319,6 +1319,19 @@ func translate(p *pkg, it Item) (out string, err error) {
 		if ty != ety {
 			return "", fmt.Errorf("assignment to %s stores %v, element type is %v", it.Local, ty, ety)
 		}
+		// function parameters mentioned by the right-hand side come first (C13: `b.XZ = int8(X<<4 | Z)`)
+		var usedParams []param
+		ast.Inspect(rhs, func(n ast.Node) bool {
+			if id, ok := n.(*ast.Ident); ok {
+				for _, q := range params {
+					if q.name == id.Name {
+						usedParams = appendUnique(usedParams, q)
+					}
+				}
+			}
+			return true
+		})
+		ps = append(usedParams, ps...)
 		return header(p, fd, it, what+" / "+it.Local+" =") + sig(it.Name, ps, *t.extra, ty.String()) + pre + "  " + e + "\n", nil
 	case "cond":
 		var cond ast.Expr
